@@ -7,6 +7,7 @@ CONSTANTS
   FirstCap = 0
   Roots = {1, 2}
   Dev = "none"
+  Tolerant = TRUE
 INVARIANTS ReturnsByHard BestIsMax MajorityRule ErrorIffNothing InvalidNeverReturned NotOverdue LookupOwnTime
 CONSTRAINT HWM
 POSTCONDITION TraceAccepted
